@@ -3,10 +3,18 @@ From Coq Require Import String.
 From Mux Require Import Model.Bytes Model.Regex Model.Context Model.Syntax Model.Tree Model.Router
      Model.Match Model.Group Proofs.Group.
 
-Theorem C13_reject_clean : forall m q ps q' ps', matcher_ok m -> m_match m q ps = MR false q' ps' ->
-    q' = q /\ ps' = ps.
+(* [ctx_nodup ps]: the incoming context is a map (no key twice); [matcher_ok] holds of every reachable
+   Hosts matcher (C13_hosts_clean_reachable, Props/C14tree.v) *)
+Theorem C13_reject_clean : forall m q ps q' ps', matcher_ok m -> ctx_nodup ps ->
+    m_match m q ps = MR false q' ps' -> q' = q /\ ps' = ps.
 Proof. exact reject_clean. Qed.
 Print Assumptions C13_reject_clean.
+
+(* accepted or rejected, a matcher keeps the context a map *)
+Theorem C13_match_nodup : forall m q ps ok q' ps', matcher_ok m -> ctx_nodup ps ->
+    m_match m q ps = MR ok q' ps' -> ctx_nodup ps'.
+Proof. exact m_match_nodup. Qed.
+Print Assumptions C13_match_nodup.
 
 Theorem C13_and_accepts_all : forall l q ps q' ps', m_match (MAnd l) q ps = MR true q' ps' ->
     exists states : list (mreq * params), length states = length l /\
@@ -18,7 +26,7 @@ Theorem C13_and_accepts_all : forall l q ps q' ps', m_match (MAnd l) q ps = MR t
 Proof. exact and_accepts_all. Qed.
 Print Assumptions C13_and_accepts_all.
 
-Theorem C13_or_first : forall l q ps q' ps', (forall x, In x l -> matcher_ok x) ->
+Theorem C13_or_first : forall l q ps q' ps', (forall x, In x l -> matcher_ok x) -> ctx_nodup ps ->
     m_match (MOr l) q ps = MR true q' ps' ->
     exists pre x post, l = pre ++ x :: post /\
       (forall y, In y pre -> exists a b, m_match y q ps = MR false a b) /\
